@@ -89,7 +89,7 @@ Section Dispatch.
   Definition synth (rq : request) (k : synth_kind) : list outmsg := [Synth (rq_id rq) k].
 
   (** The try/except body of _send_message_internal, up to the completion check. *)
-  Definition dispatch (st : tstate) (rq : request) (a : answer) : tstate * list outmsg :=
+  Definition handle_answer (st : tstate) (rq : request) (a : answer) : tstate * list outmsg :=
     match a with
     | Exc ExAsyncioTimeout => (st, synth rq (SError (-32000)))
     | Exc _ => (st, synth rq (SError (-32603)))
@@ -137,7 +137,7 @@ Section Dispatch.
     end.
 
   Definition post (st : tstate) (rq : request) (a : answer) : tstate * list outmsg :=
-    let '(st', out) := dispatch st rq a in (st', out ++ completion rq out).
+    let '(st', out) := handle_answer st rq a in (st', out ++ completion rq out).
 
   (** [if self._session_id: headers["Mcp-Session-Id"] = ...] *)
   Definition sent_session (st : tstate) : option str :=
